@@ -128,20 +128,20 @@ def mk_models(prop):
             notes += nn
             names.append(name)
         if prop == "C06":
-            # exhaustive: every sequence of 7 operations of a 3-letter alphabet, then an observation (3^7 = 2187 executions)
+            # exhaustive: every sequence of a tiny alphabet, then an observation (ks_x1: 3^7 = 2187, ks_x2: 4^6 = 4096 executions)
             import itertools
-            name = "ks_x1"
-            s, t, _, nn = one_scenario(wd, name, seed, cap=1, dump_graph=False)
-            sc = load_scen(name)
-            scj = dict((k, v) for k, v in sc.items() if k not in ("maxinst", "maxtok", "comment"))
-            acts = [i + 1 for i, o in enumerate(sc["alphabet"]) if not o["op"].startswith("get")]
-            obs = [i + 1 for i, o in enumerate(sc["alphabet"]) if o["op"].startswith("get")][0]
-            for i, seq in enumerate(itertools.product(acts, repeat=sc["maxops"] - 1)):
-                scheds.append({"name": "%s/%d" % (name, i), "scenario": scj, "labels": ["op:%d" % k for k in seq] + ["op:%d" % obs]})
-            states += s
-            trans += t
-            notes += nn
-            names.append(name)
+            for name in ("ks_x1", "ks_x2"):
+                s, t, _, nn = one_scenario(wd, name, seed, cap=1, dump_graph=False)
+                sc = load_scen(name)
+                scj = dict((k, v) for k, v in sc.items() if k not in ("maxinst", "maxtok", "comment"))
+                acts = [i + 1 for i, o in enumerate(sc["alphabet"]) if not o["op"].startswith("get")]
+                obs = [i + 1 for i, o in enumerate(sc["alphabet"]) if o["op"].startswith("get")][0]
+                for i, seq in enumerate(itertools.product(acts, repeat=sc["maxops"] - 1)):
+                    scheds.append({"name": "%s/%d" % (name, i), "scenario": scj, "labels": ["op:%d" % k for k in seq] + ["op:%d" % obs]})
+                states += s
+                trans += t
+                notes += nn
+                names.append(name)
         return states, trans, scheds, notes, names
     return models
 
